@@ -55,15 +55,15 @@ func genC17(t *rapid.T) any {
 	c.Opts.NoFragments = rapid.IntRange(0, 4).Draw(t, "nofrag") == 0
 	bs := int(c.BS)
 	nf := rapid.IntRange(3, 10).Draw(t, "nfiles")
-	if rapid.IntRange(0, 3).Draw(t, "manyFiles") == 0 {
+	if rapid.IntRange(0, 11).Draw(t, "manyFiles") == 0 {
 		// enough inodes and directory entries for several 8 KiB metadata blocks per table, so that goroutines
 		// starting on different files miss on different metadata blocks at the same time
-		nf = rapid.SampledFrom([]int{90, 99}).Draw(t, "nfilesMany")
+		nf = rapid.SampledFrom([]int{220, 240}).Draw(t, "nfilesMany")
 	}
 	for i := 0; i < nf; i++ {
 		if nf > 10 {
 			// sparse-looking multi-block files have long block lists: the inode table grows to tens of KiB
-			c.Files = append(c.Files, []int{1, 100, 24*bs + 5, bs / 3, 40*bs + 1}[i%5])
+			c.Files = append(c.Files, []int{1, 100, 4*bs + 5, bs / 3, 6*bs + 1}[i%5])
 			continue
 		}
 		c.Files = append(c.Files, rapid.SampledFrom([]int{1, 100, bs / 3, bs - 1, bs, bs + 1, 2*bs + 77, 5*bs + bs/2, 9 * bs}).Draw(t, "fsize"))
@@ -105,7 +105,7 @@ func genC17(t *rapid.T) any {
 	return c
 }
 
-func c17Name(i int) string { return fmt.Sprintf("dir/f%02d.bin", i) }
+func c17Name(i int) string { return fmt.Sprintf("dir/f%02d.bin", i) } // three digits from 100 on
 
 func execC17(ci any) (r hx.Result) {
 	r = execC17Once(ci, 3*watchdog())
